@@ -41,7 +41,7 @@ type PFile struct {
 	PkgPath string
 	PkgName string
 	Imports []Imp
-	Blocks  [][]int  // grouping of Imports into import declarations (indices into Imports); single-element non-parenthesised when Paren[i] is false
+	Blocks  [][]int // grouping of Imports into import declarations (indices into Imports); single-element non-parenthesised when Paren[i] is false
 	Paren   []bool
 	Decls   []string // top-level declarations (source text), in order
 	Src     string
